@@ -24,7 +24,7 @@ PROPS = {
     "C09": dict(families="gating,restart,shutdown,exiton,manual,health,unsat,daemon",
                 need=["stateEv", "observeEnd", "atRest"], model=["PCLifecycle_gating.cfg", "PCLifecycle_restart.cfg"], model_thorough=["PCLifecycle_gating.cfg", "PCLifecycle_restart.cfg", "PCLifecycle_manualq.cfg"]),
     "C10": dict(families="health,health,health,daemon,daemon,gating,health",
-                need=["readyState", "fatalProbe"], model=["PCLifecycle_health.cfg"], model_thorough=["PCLifecycle_health.cfg"]),
+                need=["readyState", "fatalProbe"], model=["PCLifecycle_health.cfg", "PCLifecycle_daemon.cfg"], model_thorough=["PCLifecycle_health.cfg", "PCLifecycle_daemon.cfg", "PCLifecycle_daemonapi.cfg"]),
     "C12": dict(families="shutdown,shutdown,shutdown,shutdown,gating,shutdown",
                 need=["signalOrderedWithDependents"], model=["PCLifecycle_shutdown2.cfg"], model_thorough=["PCLifecycle_shutdown2.cfg", "PCLifecycle_shutdown.cfg"]),
 }
